@@ -115,6 +115,9 @@ structure ProbeOK (hash : Nat → Nat) (ns : List Node) (f : Frame) : Prop where
 /-- no earlier result binds this call any more (it would contradict what the thread has seen) -/
 def NoMust (f : Frame) : Prop := ∀ tbs is, f.must = some (tbs, is) → usable f tbs → False
 
+/-- an inserter about to CAS has not been bound to a slot of this very table -/
+def NoMustHere (f : Frame) : Prop := ∀ is, f.must = some (f.tb, is) → usable f f.tb → False
+
 /-- the slot a thread holds between its successful CAS and its return -/
 def ownerOf : Pc → Option (Nat × Nat)
   | .construct f i | .st1 f i | .st2 f i | .sz f i => some (f.tb, i)
@@ -164,9 +167,6 @@ def ThreadOK (hash : Nat → Nat) (ns : List Node) (ch : List Nat) : Pc → Prop
           (∀ tbs is, f.must = some (tbs, is) → usable f tbs → tbs = tb ∧ is = i ∧ ins = false)
       | .none => f.built = false ∧ NoMust f ∧
           (f.kind.isFind = false → f.kind = .tEmplace ∧ (nodeAt ns 0).tab.Sat)
-where
-  /-- an inserter about to CAS has not been bound to a slot of this very table -/
-  NoMustHere (f : Frame) : Prop := ∀ is, f.must = some (f.tb, is) → usable f f.tb → False
 
 /-! ### the chain -/
 
